@@ -56,6 +56,7 @@ FAULT_KINDS = {
     "open": ("open_fail", "crash"),
     "write": ("write_fail", "short", "crash"),
     "close": ("close_fail", "crash"),
+    "truncate": ("crash",),
     "rename": ("rename_fail", "crash"),
     "remove": ("remove_fail", "crash"),
     "fsync": ("fsync_fail", "crash"),
@@ -627,6 +628,7 @@ def run_workload(plan, srcs, fault=None, interrupt=None, twin=None,
                          {"op": "tw_close", "w": 1, "final": True}]
     outcomes, after, problems = [], [], []
     kept_exc = []
+    int_holder = []
     faulted_op = None
     with fs.installed():
         for k, op in enumerate(ops):
@@ -635,7 +637,9 @@ def run_workload(plan, srcs, fault=None, interrupt=None, twin=None,
             fired_before = fs.fired
             try:
                 if interrupt is not None and interrupt[0] == k:
-                    with Interrupter(REPO, interrupt[1]) as it:
+                    it = Interrupter(REPO, interrupt[1])
+                    int_holder.append(it)
+                    with it:
                         out = R.do(k, op)
                     if not it.fired:
                         R.bump("interrupt_not_reached")
@@ -1024,7 +1028,16 @@ def run_workload(plan, srcs, fault=None, interrupt=None, twin=None,
         # an object nobody can close -- true of any Python class, not a
         # defect of this one (the first version of this oracle flagged that
         # on the unchanged tree: a false alarm, corrected).
-        if kept_exc and kindf != "crash" and op["op"] == "csv":
+        # Not when the interrupt landed on a `with` header line: CPython
+        # reports that line again when the block ends, *before* it calls
+        # __exit__, and an asynchronous exception arriving in that gap skips
+        # __exit__ for any program (CPython issue 29988) -- seen once on the
+        # unchanged tree, a false alarm of the first version, corrected.
+        on_with_header = False
+        if int_holder and int_holder[0].frame_line is not None:
+            on_with_header = int_holder[0].frame_line.lstrip().startswith("with ")
+        if kept_exc and kindf != "crash" and op["op"] == "csv" \
+                and not on_with_header:
             import gc
             snap = durable(fs)
             kept_exc.clear()
